@@ -259,7 +259,8 @@ def run(a):
                      "into the next block and reads exactly those keys through every snapshot path, history and stage inspection; a direct differential of the "
                      "radix tree's node containers (n* ops: addChild/findChild/replaceChild/iteration across 4/16/48/256 in several insertion orders); a structure "
                      "differential of the whole radix tree (tdump/tsearch/tkeys; `paths` family: shared prefixes of 0..40 bytes around the 20-byte bound, keys ending "
-                     "inside a prefix, all node sizes on one path) and red-black invariants checked on the real RBT (rbtchk); property ops: cleanup/revert view oracle, snapshot-ignores-staged oracle, evaluated per tree")
+                     "inside a prefix, all node sizes on one path) and red-black invariants checked on the real RBT (rbtchk); a batched-snapshot-iterator family (100-400 keys of mixed lengths from prefix "
+                     "chains, many bounds, forward and reverse: gsiter against the model's batching, gschk against SnapshotIter / ForEachInSnapshotRange); property ops: cleanup/revert view oracle, snapshot-ignores-staged oracle, evaluated per tree")
     c.assumptions = ["the red-black tree is not modelled (its invariants are checked on the real tree by rbtchk); the radix tree is: node containers (Model/ArtNode.lean) and path logic (Model/ArtTree.lean, structure differential tdump); iterator seek with bounds is differential-only",
                      "vlog addresses are modelled as log indices; arena block arithmetic is covered by the differential only (values crossing the 4 KiB block)",
                      "RevertToCheckpoint is only issued for checkpoints at or above the top staging mark and not beyond the current log end (other uses loop on garbage headers)",
